@@ -53,3 +53,21 @@ Section Serial.
   Definition total (hist : history) : nat := fold_right (fun h n => length h + n) 0 hist.
   Definition serial_ok (s0 : store) (hist : history) (final : store) : bool := search (total hist) s0 hist final.
 End Serial.
+
+(* all one-at-a-time orderings of the calls of several processes that respect each process's own order *)
+Section Merges.
+  Variable call : Type.
+  Fixpoint set_at' (l : list (list call)) (n : nat) (x : list call) : list (list call) :=
+    match l, n with [], _ => [] | _ :: r, O => x :: r | y :: r, S k => y :: set_at' r k x end.
+  Fixpoint merges_fuel (fuel : nat) (ps : list (list call)) : list (list call) :=
+    if forallb (fun h => match h with [] => true | _ => false end) ps then [[]]
+    else match fuel with
+         | O => []
+         | S k => flat_map (fun i => match nth i ps [] with
+                                     | [] => []
+                                     | c :: rest => map (cons c) (merges_fuel k (set_at' ps i rest))
+                                     end) (seq 0 (length ps))
+         end.
+  Definition merges (ps : list (list call)) : list (list call) :=
+    merges_fuel (fold_right (fun h n => length h + n) 0 ps) ps.
+End Merges.
